@@ -517,11 +517,74 @@ fn sub_variants(input: &[u8], st: &mut Stats) -> R {
     Ok(())
 }
 
+/// (e) with generated payloads: every literal / id / string conversion, any Rust string (NULs, multi-byte,
+/// empty, long), through `From<String>` and `From<&str>`, edge-biased numbers, every opcode.
+fn sub_payloads(input: &[u8], st: &mut Stats) -> R {
+    let mut cs = Cs::new(input);
+    let fail = |n: &str, what: String| Fail::new("from-unwrap", n.to_string(), format!("converting a payload into an operand and extracting it again does not return the payload: {}", what));
+    for _ in 0..4 {
+        let s = cs.string_any();
+        let a = no_panic("Operand::from(String)", || Operand::from(s.clone()))?;
+        let b = no_panic("Operand::from(&str)", || Operand::from(s.as_str()))?;
+        for (n, o) in [("String", &a), ("&str", &b)] {
+            if *o != Operand::LiteralString(s.clone()) {
+                return Err(fail(n, format!("Operand::from({:?}) = {:?}", s, o)));
+            }
+            let back = no_panic("unwrap_literal_string", || o.unwrap_literal_string().to_string())?;
+            if back != s {
+                return Err(fail(n, format!("Operand::from({:?}).unwrap_literal_string() = {:?}", s, back)));
+            }
+        }
+        st.evaluations += 1;
+        if s.contains('\0') || !s.is_ascii() {
+            st.count("payload_strings_with_nul_or_multibyte");
+        }
+        st.nontrivial(hash_str(&s));
+    }
+    for _ in 0..4 {
+        let v = cs.lit32();
+        let w = cs.lit64();
+        let o = Operand::from(v);
+        if o != Operand::LiteralBit32(v) || no_panic("unwrap_literal_bit32", || o.unwrap_literal_bit32())? != v {
+            return Err(fail("u32", format!("{:#x} -> {:?}", v, o)));
+        }
+        let o = Operand::from(w);
+        if o != Operand::LiteralBit64(w) || no_panic("unwrap_literal_bit64", || o.unwrap_literal_bit64())? != w {
+            return Err(fail("u64", format!("{:#x} -> {:?}", w, o)));
+        }
+        let ids = [
+            ("IdRef", Operand::IdRef(v).unwrap_id_ref()),
+            ("IdScope", Operand::IdScope(v).unwrap_id_scope()),
+            ("IdMemorySemantics", Operand::IdMemorySemantics(v).unwrap_id_memory_semantics()),
+            ("LiteralExtInstInteger", Operand::LiteralExtInstInteger(v).unwrap_literal_ext_inst_integer()),
+        ];
+        for (n, got) in ids {
+            if got != v {
+                return Err(fail(n, format!("{:#x} -> {:#x}", v, got)));
+            }
+        }
+        st.evaluations += 1;
+        st.nontrivial(v as u64 ^ (w << 1));
+    }
+    let table: Vec<spirv::Op> = rspirv::grammar::CoreInstructionTable::iter().map(|g| g.opcode).collect();
+    for _ in 0..4 {
+        let op = table[cs.below(table.len())];
+        let o = Operand::from(op);
+        if o != Operand::LiteralSpecConstantOpInteger(op) || no_panic("unwrap_literal_spec_constant_op_integer", || o.unwrap_literal_spec_constant_op_integer())? != op {
+            return Err(fail("Op", format!("{:?} -> {:?}", op, o)));
+        }
+        st.evaluations += 1;
+    }
+    st.sample(|| "payloads: strings (any, incl. NUL / multi-byte) via From<String> and From<&str>, u32, u64, ids, opcodes".to_string());
+    Ok(())
+}
+
 pub const SUBS: &[Sub] = &[
     Sub { name: "parameterised-values", f: sub_values },
     Sub { name: "random-mask-subsets", f: sub_random_masks },
     Sub { name: "operand-variants", f: sub_variants },
     Sub { name: "every-host-instruction", f: sub_hosts },
+    Sub { name: "payload-conversions", f: sub_payloads },
 ];
 
 pub fn run(ctx: &Ctx) {
@@ -530,13 +593,14 @@ pub fn run(ctx: &Ctx) {
     drive_random(ctx, &SUBS[1], ctx.n(20_000, 10_000_000), 64);
     drive_enum(ctx, &SUBS[2], 1);
     drive_enum(ctx, &SUBS[3], hosts().len() as u64);
+    drive_random(ctx, &SUBS[4], ctx.n(40_000, 4_000_000), 400);
 }
 
 pub fn finish(ctx: &Ctx) -> i32 {
     crate::engine::finish(
         ctx,
         Finish {
-            rule: "complete: every enumerant of ExecutionMode and Decoration; for ImageOperands, LoopControl, MemoryAccess, TensorAddressingOperands: 0, all bits, every single bit, every pair, all subsets when <= 12 bits, random subsets otherwise; every Operand variant (every enumerant of every kind, 0/all for masks, the literal/id/string variants); every (host instruction, parameterised kind) pair of the grammar (49: OpDecorate, OpMemberDecorate, OpDecorateId, OpDecorateString..., OpExecutionMode(Id), image / memory / cooperative-matrix instructions) x every enumerant or bit. Oracle: (a) differential inside rspirv: the instruction carrying the value followed by words for the parameter kinds parses, and the operand variants delivered after the value equal the kinds additional_operands() reports (sequence for enumerants, multiset for masks); one parameter word fewer / one word more is rejected; (b) both equal the golden parameter list; (c) required capabilities/extensions equal the golden sets of the enumerant / union over set bits; (d) id_ref_any().is_some() iff IdRef/IdScope/IdMemorySemantics; writing through id_ref_any_mut changes exactly that word of assemble(); (e) From<payload> then unwrap_* returns the payload. non-trivial = value with at least one parameter / id-carrying operand; distinct = (kind, value).",
+            rule: "complete: every enumerant of ExecutionMode and Decoration; for ImageOperands, LoopControl, MemoryAccess, TensorAddressingOperands: 0, all bits, every single bit, every pair, all subsets when <= 12 bits, random subsets otherwise; every Operand variant (every enumerant of every kind, 0/all for masks, the literal/id/string variants); every (host instruction, parameterised kind) pair of the grammar (49: OpDecorate, OpMemberDecorate, OpDecorateId, OpDecorateString..., OpExecutionMode(Id), image / memory / cooperative-matrix instructions) x every enumerant or bit. Oracle: (a) differential inside rspirv: the instruction carrying the value followed by words for the parameter kinds parses, and the operand variants delivered after the value equal the kinds additional_operands() reports (sequence for enumerants, multiset for masks); one parameter word fewer / one word more is rejected; (b) both equal the golden parameter list; (c) required capabilities/extensions equal the golden sets of the enumerant / union over set bits; (d) id_ref_any().is_some() iff IdRef/IdScope/IdMemorySemantics; writing through id_ref_any_mut changes exactly that word of assemble(); (e) From<payload> then unwrap_* returns the payload: every enumerant / mask value, and generated u32 / u64 / id / opcode payloads and arbitrary Rust strings (NULs, multi-byte, empty, long) through From<String> and From<&str>. non-trivial = value with at least one parameter / id-carrying operand; distinct = (kind, value).",
             assumptions: vec!["parameter quantifiers of the Khronos JSON are not representable in the generated code and cannot be compared offline".into(), "golden parameter lists = snapshot of the pinned tree cross-checked parser-side vs reflection-side and against specification anchors".into()],
             trusted_base: vec!["golden/api.json".into(), "golden/source.json (parser-side parameters)".into()],
         },
